@@ -226,6 +226,8 @@ func runSession(w *harness.W, sc sessCase, r gen.R) {
 		}(q)
 	}
 	// terminal input
+	var mouseSent int64
+	var mouseGot []int
 	inputDone := make(chan struct{})
 	go func() {
 		defer close(inputDone)
@@ -237,7 +239,14 @@ func runSession(w *harness.W, sc sessCase, r gen.R) {
 				time.Sleep(time.Duration(ir.Intn(20)) * time.Millisecond)
 				sess.Con.Inject([]byte("[A"))
 			case 1:
-				sess.Con.Inject([]byte(strings.Repeat("k\x1b[B\x1b[<35;3;4M", 1+ir.Intn(30))))
+				// keys and mouse reports; every mouse report carries its
+				// number in the column field
+				var sb strings.Builder
+				for n := 1 + ir.Intn(30); n > 0; n-- {
+					id := atomic.AddInt64(&mouseSent, 1)
+					fmt.Fprintf(&sb, "k\x1b[B\x1b[<35;%d;4M", 1000+id)
+				}
+				sess.Con.Inject([]byte(sb.String()))
 			case 2:
 				if caps.InBand {
 					sess.Con.SetSize(20+ir.Intn(30), 5+ir.Intn(10))
@@ -292,6 +301,10 @@ func runSession(w *harness.W, sc sessCase, r gen.R) {
 			last[e.Prod] = e.Seq
 		case vaxis.SyncFunc:
 			e()
+		case vaxis.Mouse:
+			if e.Col >= 1000 {
+				mouseGot = append(mouseGot, e.Col-999) // columns are reported 1-based
+			}
 		case vaxis.Redraw, vaxis.Resize:
 			if sp != nil {
 				sp.Draw(vx.Window())
@@ -400,6 +413,25 @@ loop:
 			}
 			w.Inconclusive("post-query-sentinel-timeout-without-corroboration")
 			return
+		}
+		// everything the terminal sent before the marker key has been
+		// handled: the numbered mouse reports arrived exactly once, in order
+		// (a Suspend may drop input that is in flight: not judged then)
+		if sc.Suspends == 0 {
+			sent := int(atomic.LoadInt64(&mouseSent))
+			bad := len(mouseGot) != sent
+			for k := 0; k < len(mouseGot) && !bad; k++ {
+				bad = mouseGot[k] != k+1
+			}
+			w.Count("numbered_mouse_reports_sent", int64(sent))
+			if bad {
+				show := mouseGot
+				if len(show) > 40 {
+					show = show[:40]
+				}
+				w.Violation("lost:mouse-report", fmt.Sprintf("%d numbered mouse reports were sent by the terminal (event queue of %d, main goroutine slow: %v), %d were delivered", sent, sc.QueueSize, sc.SlowMain, len(mouseGot)), sc, fmt.Sprint(show), fmt.Sprintf("1..%d, each once, in order", sent))
+				return
+			}
 		}
 		if f3 > 3 && !sc.NoCPR {
 			// a cursor position report that arrived after its request had
